@@ -16,7 +16,8 @@ Definition owned (T : Type) : Region := {|
     (fun _ => True)
     (fun (s : list T) (i : nat * nat) => fst i <= snd i <= length s)
     (fun _ _ => True)
-    eq.
+    eq
+    (fun _ => True).
 
 #[export] Instance owned_ok T : RegionOK (owned T).
 Proof.
